@@ -1,6 +1,7 @@
 import Comdex.Lemmas.LendLtv
 import Comdex.Lemmas.LendAccrual
 import Comdex.Lemmas.LendIds
+import Comdex.Lemmas.LendReserve
 /-!
 # C08 — Lending books balance and borrowing is bounded by loan-to-value
 
@@ -938,5 +939,58 @@ example :
     ((run cfgP (init cfgP bankP pricesH) opsC).resv.map fun r => (r.asset, r.reserve, r.buyback, r.inPenalty, r.inRepay)) = [(2, 0, 0, 1, 1)] ∧
     (run cfgP (init cfgP bankP pricesH) opsC).bank.get 99 2 = 2 := by
   decide
+
+/-! ## The reserve ledger: reserve module balance vs the book-keeping records -/
+
+/-- no message of the history is signed by the reserve module account (module accounts hold no key) -/
+def SignersOk (cfg : Cfg) (ops : List Op) : Prop := ∀ op ∈ ops, op.signer ≠ some cfg.reserveAcct
+instance (cfg : Cfg) (ops : List Op) : Decidable (SignersOk cfg ops) := by unfold SignersOk; infer_instance
+
+theorem init_own (cfg : Cfg) (bank : Bank) (prices : List (Nat × Nat)) : Own cfg (init cfg bank prices) :=
+  ⟨(fun l hl => nomatch hl), (fun k hk => nomatch hk), (fun b hb => nomatch hb)⟩
+
+theorem run_ledger {cfg : Cfg} (ok : CfgOk cfg) {bank0 : Bank} (ops : List Op) {s : State} (hs : SignersOk cfg ops) (o : Own cfg s)
+    (l : ResLedger cfg bank0 s) : ResLedger cfg bank0 (run cfg s ops) ∧ Own cfg (run cfg s ops) := by
+  induction ops generalizing s with
+  | nil => exact ⟨l, o⟩
+  | cons op ops ih =>
+    have hop := hs op (by simp)
+    have hrest : SignersOk cfg ops := fun o ho => hs o (by simp [ho])
+    show ResLedger cfg bank0 (run cfg (apply cfg s op) ops) ∧ Own cfg (run cfg (apply cfg s op) ops)
+    unfold apply
+    split
+    · rename_i s' hstep
+      exact ih hrest (step_own hop hstep o) (resLedger_step l (step_bal ok hop hstep o))
+    · exact ih hrest o l
+
+/-- **Reserve ledger** — for every configuration whose module accounts are distinct accounts, every genesis bank and prices, and every
+history (user messages not signed by the reserve account, hand-overs, bids, auction closes): for every asset the balance of the
+reserve module account is its genesis balance plus the inflows the records name (`FundReserveBal` entries, `AmountInFromLiqPenalty`,
+`AmountInFromRepayments`) minus the outflows they name (`AmountOutFromReserveToLenders`, `AmountOutFromReserveForAuction`). -/
+theorem reserve_ledger (cfg : Cfg) (ok : CfgOk cfg) (bank : Bank) (prices : List (Nat × Nat)) (ops : List Op) (hs : SignersOk cfg ops) :
+    ResLedger cfg bank (run cfg (init cfg bank prices) ops) :=
+  (run_ledger ok ops hs (init_own cfg bank prices) (fun a => by simp [init, getResv, Resv.flow])).1
+
+/-- **One reserve transfer, on the records**: `UpdateReserveBalances` moves BOTH halves (`ReserveAmount`, `BuybackAmount`) by `⌊x/2⌋`
+while the bank moves `x`: the halves stay equal, and after an inflow `x` their sum lags the coins by `x mod 2`. -/
+theorem reserve_halves_step (r : Resv) (x : Int) (inc : Bool) (h : r.reserve = r.buyback) (hx : 0 ≤ x) :
+    (r.halves x inc).reserve = (r.halves x inc).buyback ∧ (r.halves x inc).flow = r.flow ∧
+      ((r.halves x true).reserve + (r.halves x true).buyback = r.reserve + r.buyback + x - x % 2) := by
+  refine ⟨halves_eq r x inc h, halves_flow r x inc, ?_⟩
+  simp only [Resv.halves, if_true]
+  rw [Int.tdiv_eq_ediv_of_nonneg hx]
+  omega
+
+/-- **The halves are no ledger**: two inflows of 1 and one outflow of 2 leave `ReserveAmount = BuybackAmount = −1` with an empty
+account — the records round every transfer separately (`⌊1/2⌋ + ⌊1/2⌋ − ⌊2/2⌋`). -/
+theorem reserve_halves_drift_counterexample :
+    ((({ asset := 1 } : Resv).halves 1 true).halves 1 true).halves 2 false = { asset := 1, reserve := -1, buyback := -1 } := by decide
+
+/-- non-vacuity (`reserve_ledger`): `cfgP` has distinct module accounts, the history `opsC` (with the auction close paying penalty and
+interest share into the reserve) is signed by users only, and it does move the reserve: 2 B in, recorded as 1 + 1 -/
+example : CfgOk cfgP ∧ SignersOk cfgP opsC ∧
+    (run cfgP (init cfgP bankP pricesH) opsC).bank.get cfgP.reserveAcct 2 = 2 ∧
+    (getResv (run cfgP (init cfgP bankP pricesH) opsC).resv 2).flow = 2 := by
+  refine ⟨⟨by decide, by decide⟩, by decide, by decide, by decide⟩
 
 end Comdex.C08
